@@ -83,6 +83,11 @@ TEXT = {
         note="Trusts the sim's ObjectMeta validation for the two-controller clause; the race is explored at API-request granularity.",
         technique="bounded-exhaustive decision-table enumeration + exhaustive interleaving exploration (cooperative scheduler, preemption-bounded DFS) on the real code",
     ),
+    "C02": dict(
+        level="Model checking of ownership safety: deviation-bounded exploration (every request boundary x every environment action x every target, i.e. every interleaving of one external edit with the sync, incl. arbitrarily stale caches) plus exhaustive schedule exploration of two concurrent parents; oracle on every store-changing request, judged against the pre-state in the request log: target controlled by the acting parent except creation and the owner-reference-only adoption of a matching orphan; deletes carry the observed UID and background propagation; creations carry exactly one controller reference.",
+        note="One external edit per sync (plus the stale follow-up sync). Known findings: TOCTOU windows that only a resourceVersion precondition / re-check would close, and server-side apply on uncontrolled objects.",
+        technique="deviation-bounded exploration of environment interleavings + exhaustive schedule exploration (cooperative scheduler) on the real code, request-log oracle",
+    ),
 }
 
 PENDING_REASON = "check not built yet in this session (planned in DESIGN.md §4); no claim is made until its check runs clean on the unchanged tree"
